@@ -75,7 +75,7 @@ add("C04/recursive-union/stack-overflow",
     "Lean witness C04.wRecursiveUnion; mutation `ref=#/definitions/X` inside its own oneOf, e.g. seed 1 mut/75")
 add("C04/recursive-type/jenny-stack-overflow",
     "recursive type reached through arrays / references in a jenny (`#A: [...#A]`, self-referencing definitions): python fromJSONForType, java formatArray, languages.Context.ResolveToComposableSlot recurse through references without a visited set (stack overflow), the Go / PHP type templates expand it until memory runs out (runaway: watchdog timeout or `out of memory`)",
-    r"outcome=(crash|timeout) frame=((recursion|hang):internal/(jennies/|languages\.)\S*|\S*) msg=(fatal error: stack overflow|fatal error: out of memory|no result within the watchdog time).*(?<=frame=)?",
+    r"outcome=(crash|timeout) frame=((recursion|hang):internal/(jennies/|languages\.)\S* msg=(fatal error: stack overflow|no result within the watchdog time)|internal/jennies/\S* msg=fatal error: out of memory)",
     "./check C04 --replay corpus:corpus/cue-recursive-array   (`#A: [...#A]`)")
 add("C04/openapi/library-stack-overflow",
     "OpenAPI schema that contains itself under anyOf/oneOf (`Array: {anyOf: [.., {$ref: Array}]}`) with validation on: kin-openapi's Schema.IsEmpty / validation recurses forever (third-party code, but the cog run dies with a Go stack overflow)",
@@ -106,11 +106,6 @@ add("C04/java/default-value-type-assertion",
     "default value whose dynamic type does not match the scalar kind (`type: number, default: \"x\"`): java formatType asserts .(float64) / .(int64)",
     r"frame=internal/jennies/java\.formatType\.func\d+ msg=interface conversion",
     "mutation of testdata/schemas/defaults (cue-rhs:float64), e.g. seed 1 mut/192")
-add("C04/fromast/dangling-alias",
-    "object that is an alias (bare reference) of a missing object: FromAST checks IsAnyOf(struct, ref) then calls ResolveToType(..).AsStruct() on the unresolved reference -> nil dereference (CUE references to packages that are not loaded; `add_object` / `retype_object` to a missing object)",
-    r"frame=internal/ast\.Type\.AsStruct<-internal/ast\.\(\*BuilderGenerator\)\.structObjectToBuilder",
-    "Lean witness Cog.Builder.danglingWitness (C16_total_counterexample); harness c04-run streams=pyaml",
-    "small safe fix: skip the object when the resolved type is not a struct")
 add("C04/config/null-list-element",
     "`inputs: [~]` / `output: {languages: [~]}`: yaml.v3 decodes a null list element to a nil pointer; interpolateParameters / OutputLanguages dereference it",
     r"frame=internal/codegen\.\(\*(Input|OutputLanguage|Pipeline|Output)\)\.\w+ msg=runtime error: invalid memory address",
